@@ -20,13 +20,28 @@
 (* - no step, no reply - and keep serving.  A child connection can be      *)
 (* dropped at any point.  Data written before a drop / exit stays readable *)
 (* for the peer (unix stream socket).                                      *)
+(*                                                                         *)
+(* Environment                                                             *)
+(*  - time: between two requests a child may stay silent on its open       *)
+(*    connection for any length of time (ChildPause; the real child sends  *)
+(*    terminate minutes after drain, samaritan.go:121-131).  The code has  *)
+(*    NO idle limit (IdleLimit = 0); with a finite IdleLimit the parent    *)
+(*    closes a silent connection and the request after the pause is lost.  *)
+(*  - faults: accept on the control socket may fail transiently while a    *)
+(*    child is connecting (descriptor shortage, EMFILE); the code retries  *)
+(*    after a delay (AcceptSurvives, hotrestart.go:86-98); a loop that     *)
+(*    exits instead leaves every child unanswered.                         *)
 (***************************************************************************)
 EXTENDS Integers, Sequences, FiniteSets, TLC
 
 CONSTANTS Children,     \* 1..N, connect in this order
           MaxReq,       \* bound on the total number of requests sent
           Overlap,      \* TRUE: a later child may connect while an earlier one is still connected
-          ReturnOnEOF   \* TRUE: the serving loop returns when the child connection ends (hotrestart.go:138-140)
+          ReturnOnEOF,  \* TRUE: the serving loop returns when the child connection ends (hotrestart.go:138-140)
+          MaxPause,     \* bound on the abstract pause units a child accumulates between two requests (0: no pauses)
+          IdleLimit,    \* 0: the parent never gives up on a silent child (the code); n > 0: it closes after n pause units
+          MaxFaults,    \* bound on the number of transient accept failures (0: none)
+          AcceptSurvives \* TRUE: the accept loop retries after a transient failure (the code); FALSE: it exits
 
 Requests  == {"admin", "conf", "drain", "term", "unknown"}
 CallSteps == {"admin", "conf", "drain"}          \* steps that are Instance calls made BEFORE the reply
@@ -45,9 +60,12 @@ VARIABLES
   c2p, p2c, \* bytes in flight per child connection: requests / replies
   sent, got,\* per child: requests sent / replies received
   reqlog,   \* requests in the order the parent read them: <<child, request>>
-  calls     \* steps performed by the parent, in order
+  calls,    \* steps performed by the parent, in order
+  idle,     \* per child: pause units since its last request while it is connected and silent
+  pclosed,  \* per child: the parent closed the connection (only with a finite IdleLimit)
+  faults    \* transient accept failures so far
 
-vars == <<par, exited, pc, serving, inhand, queue, st, c2p, p2c, sent, got, reqlog, calls>>
+vars == <<par, exited, pc, serving, inhand, queue, st, c2p, p2c, sent, got, reqlog, calls, idle, pclosed, faults>>
 
 Sum(f) == LET RECURSIVE S(_)
               S(D) == IF D = {} THEN 0 ELSE LET x == CHOOSE x \in D : TRUE IN f[x] + S(D \ {x})
@@ -63,6 +81,7 @@ Init ==
   /\ c2p = [c \in Children |-> <<>>] /\ p2c = [c \in Children |-> <<>>]
   /\ sent = [c \in Children |-> <<>>] /\ got = [c \in Children |-> <<>>]
   /\ reqlog = <<>> /\ calls = <<>>
+  /\ idle = [c \in Children |-> 0] /\ pclosed = [c \in Children |-> FALSE] /\ faults = 0
 
 (* ------------------------------------------------------------------ children *)
 MayConnect(c) ==
@@ -73,54 +92,61 @@ ChildConnect(c) ==
   /\ MayConnect(c) /\ ~exited
   /\ st' = [st EXCEPT ![c] = "conn"]
   /\ queue' = Append(queue, c)
-  /\ UNCHANGED <<par, exited, pc, serving, inhand, c2p, p2c, sent, got, reqlog, calls>>
+  /\ UNCHANGED <<par, exited, pc, serving, inhand, c2p, p2c, sent, got, reqlog, calls, idle, pclosed, faults>>
 
 ChildRefused(c) ==                       \* nobody listens any more
   /\ MayConnect(c) /\ exited
   /\ st' = [st EXCEPT ![c] = "eof"]
-  /\ UNCHANGED <<par, exited, pc, serving, inhand, queue, c2p, p2c, sent, got, reqlog, calls>>
+  /\ UNCHANGED <<par, exited, pc, serving, inhand, queue, c2p, p2c, sent, got, reqlog, calls, idle, pclosed, faults>>
 
 ChildSend(c, t) ==
   /\ st[c] = "conn" /\ NSent < MaxReq
   /\ c2p' = [c2p EXCEPT ![c] = Append(@, t)]
   /\ sent' = [sent EXCEPT ![c] = Append(@, t)]
   /\ st' = [st EXCEPT ![c] = "wait"]
-  /\ UNCHANGED <<par, exited, pc, serving, inhand, queue, p2c, got, reqlog, calls>>
+  /\ idle' = [idle EXCEPT ![c] = 0]
+  /\ UNCHANGED <<par, exited, pc, serving, inhand, queue, p2c, got, reqlog, calls, pclosed, faults>>
 
 ChildSendBad(c) ==                       \* a frame the documented format rejects; nothing to wait for
   /\ st[c] = "conn" /\ NSent < MaxReq
   /\ c2p' = [c2p EXCEPT ![c] = Append(@, "bad")]
   /\ sent' = [sent EXCEPT ![c] = Append(@, "bad")]
-  /\ UNCHANGED <<par, exited, pc, serving, inhand, queue, st, p2c, got, reqlog, calls>>
+  /\ idle' = [idle EXCEPT ![c] = 0]
+  /\ UNCHANGED <<par, exited, pc, serving, inhand, queue, st, p2c, got, reqlog, calls, pclosed, faults>>
 
 ChildRecv(c) ==
   /\ st[c] = "wait" /\ p2c[c] # <<>>
   /\ got' = [got EXCEPT ![c] = Append(@, Head(p2c[c]))]
   /\ p2c' = [p2c EXCEPT ![c] = Tail(@)]
   /\ st' = [st EXCEPT ![c] = "conn"]
-  /\ UNCHANGED <<par, exited, pc, serving, inhand, queue, c2p, sent, reqlog, calls>>
+  /\ UNCHANGED <<par, exited, pc, serving, inhand, queue, c2p, sent, reqlog, calls, idle, pclosed, faults>>
 
 ChildDrop(c) ==                          \* close / crash of the child at any point
   /\ st[c] \in {"conn", "wait"}
   /\ st' = [st EXCEPT ![c] = "gone"]
   /\ p2c' = [p2c EXCEPT ![c] = <<>>]
-  /\ UNCHANGED <<par, exited, pc, serving, inhand, queue, c2p, sent, got, reqlog, calls>>
+  /\ UNCHANGED <<par, exited, pc, serving, inhand, queue, c2p, sent, got, reqlog, calls, idle, pclosed, faults>>
 
-ChildSeesEOF(c) ==                       \* the old process is gone and nothing is left to read
-  /\ st[c] \in {"conn", "wait"} /\ exited /\ p2c[c] = <<>>
+ChildPause(c) ==                         \* time passes: the child stays connected and silent
+  /\ st[c] = "conn" /\ ~exited /\ idle[c] < MaxPause
+  /\ idle' = [idle EXCEPT ![c] = @ + 1]
+  /\ UNCHANGED <<par, exited, pc, serving, inhand, queue, st, c2p, p2c, sent, got, reqlog, calls, pclosed, faults>>
+
+ChildSeesEOF(c) ==                       \* the old process is gone (or closed this connection) and nothing is left to read
+  /\ st[c] \in {"conn", "wait"} /\ (exited \/ pclosed[c]) /\ p2c[c] = <<>>
   /\ st' = [st EXCEPT ![c] = "eof"]
-  /\ UNCHANGED <<par, exited, pc, serving, inhand, queue, c2p, p2c, sent, got, reqlog, calls>>
+  /\ UNCHANGED <<par, exited, pc, serving, inhand, queue, c2p, p2c, sent, got, reqlog, calls, idle, pclosed, faults>>
 
 (* ------------------------------------------------------------------ parent *)
 ParentAccept ==
   /\ ~exited /\ pc = "accept" /\ queue # <<>>
   /\ serving' = Head(queue) /\ queue' = Tail(queue) /\ pc' = "read"
-  /\ UNCHANGED <<par, exited, inhand, st, c2p, p2c, sent, got, reqlog, calls>>
+  /\ UNCHANGED <<par, exited, inhand, st, c2p, p2c, sent, got, reqlog, calls, idle, pclosed, faults>>
 
 ParentRejectFrame ==                     \* readMessage fails: logged, loop continues (hotrestart.go:133-143)
   /\ ~exited /\ pc = "read" /\ c2p[serving] # <<>> /\ Head(c2p[serving]) = "bad"
   /\ c2p' = [c2p EXCEPT ![serving] = Tail(@)]
-  /\ UNCHANGED <<par, exited, pc, serving, inhand, queue, st, p2c, sent, got, reqlog, calls>>
+  /\ UNCHANGED <<par, exited, pc, serving, inhand, queue, st, p2c, sent, got, reqlog, calls, idle, pclosed, faults>>
 
 ParentRead ==
   /\ ~exited /\ pc = "read" /\ c2p[serving] # <<>> /\ Head(c2p[serving]) # "bad"
@@ -129,13 +155,26 @@ ParentRead ==
        /\ reqlog' = Append(reqlog, <<serving, t>>)
        /\ pc' = IF t \in CallSteps THEN "step" ELSE "reply"
   /\ c2p' = [c2p EXCEPT ![serving] = Tail(@)]
-  /\ UNCHANGED <<par, exited, serving, queue, st, p2c, sent, got, calls>>
+  /\ UNCHANGED <<par, exited, serving, queue, st, p2c, sent, got, calls, idle, pclosed, faults>>
 
 ParentEOF ==                             \* read returns end-of-stream: back to accept
   /\ ReturnOnEOF
   /\ ~exited /\ pc = "read" /\ c2p[serving] = <<>> /\ st[serving] = "gone"
   /\ pc' = "accept" /\ serving' = 0 /\ inhand' = ""
-  /\ UNCHANGED <<par, exited, queue, st, c2p, p2c, sent, got, reqlog, calls>>
+  /\ UNCHANGED <<par, exited, queue, st, c2p, p2c, sent, got, reqlog, calls, idle, pclosed, faults>>
+
+ParentIdleClose ==                       \* only with a finite IdleLimit: give up on a silent child
+  /\ IdleLimit > 0
+  /\ ~exited /\ pc = "read" /\ c2p[serving] = <<>> /\ st[serving] = "conn" /\ idle[serving] >= IdleLimit
+  /\ pclosed' = [pclosed EXCEPT ![serving] = TRUE]
+  /\ pc' = "accept" /\ serving' = 0 /\ inhand' = ""
+  /\ UNCHANGED <<par, exited, queue, st, c2p, p2c, sent, got, reqlog, calls, idle, faults>>
+
+AcceptFault ==                           \* environment: accept fails transiently while a child is connecting
+  /\ ~exited /\ pc = "accept" /\ queue # <<>> /\ faults < MaxFaults
+  /\ faults' = faults + 1
+  /\ pc' = IF AcceptSurvives THEN "accept" ELSE "stopped"
+  /\ UNCHANGED <<par, exited, serving, inhand, queue, st, c2p, p2c, sent, got, reqlog, calls, idle, pclosed>>
 
 ParentStep ==
   /\ ~exited /\ pc = "step"
@@ -144,34 +183,35 @@ ParentStep ==
               [] inhand = "conf"  -> [par EXCEPT !.conf = FALSE]
               [] OTHER            -> [par EXCEPT !.accepting = FALSE]
   /\ pc' = "reply"
-  /\ UNCHANGED <<exited, serving, inhand, queue, st, c2p, p2c, sent, got, reqlog>>
+  /\ UNCHANGED <<exited, serving, inhand, queue, st, c2p, p2c, sent, got, reqlog, idle, pclosed, faults>>
 
 ParentReply ==                           \* a reply to a vanished child is lost (EPIPE ignored)
   /\ ~exited /\ pc = "reply"
   /\ p2c' = IF st[serving] = "gone" THEN p2c ELSE [p2c EXCEPT ![serving] = Append(@, Reply(inhand))]
   /\ pc' = IF inhand = "term" THEN "kill" ELSE "read"
-  /\ UNCHANGED <<par, exited, serving, inhand, queue, st, c2p, sent, got, reqlog, calls>>
+  /\ UNCHANGED <<par, exited, serving, inhand, queue, st, c2p, sent, got, reqlog, calls, idle, pclosed, faults>>
 
 ParentKill ==                            \* kill(getpid(), SIGTERM) after the reply
   /\ ~exited /\ pc = "kill"
   /\ calls' = Append(calls, "term")
   /\ par' = [par EXCEPT !.terminated = TRUE]
   /\ pc' = "read"
-  /\ UNCHANGED <<exited, serving, inhand, queue, st, c2p, p2c, sent, got, reqlog>>
+  /\ UNCHANGED <<exited, serving, inhand, queue, st, c2p, p2c, sent, got, reqlog, idle, pclosed, faults>>
 
 ParentExit ==                            \* the signalled process shuts down, at any later moment
   /\ ~exited /\ par.terminated
   /\ exited' = TRUE
-  /\ UNCHANGED <<par, pc, serving, inhand, queue, st, c2p, p2c, sent, got, reqlog, calls>>
+  /\ UNCHANGED <<par, pc, serving, inhand, queue, st, c2p, p2c, sent, got, reqlog, calls, idle, pclosed, faults>>
 
-ParentNext == ParentAccept \/ ParentRejectFrame \/ ParentRead \/ ParentEOF \/ ParentStep \/ ParentReply \/ ParentKill
+ParentNext == ParentAccept \/ ParentRejectFrame \/ ParentRead \/ ParentEOF \/ ParentIdleClose
+              \/ ParentStep \/ ParentReply \/ ParentKill
 ParentCanMove == ENABLED ParentNext
 
 ChildNext(c) ==
   \/ ChildConnect(c) \/ ChildRefused(c) \/ (\E t \in Requests : ChildSend(c, t)) \/ ChildSendBad(c)
-  \/ ChildRecv(c) \/ ChildDrop(c) \/ ChildSeesEOF(c)
+  \/ ChildRecv(c) \/ ChildDrop(c) \/ ChildSeesEOF(c) \/ ChildPause(c)
 
-Next == ParentNext \/ ParentExit \/ (\E c \in Children : ChildNext(c))
+Next == ParentNext \/ ParentExit \/ AcceptFault \/ (\E c \in Children : ChildNext(c))
 
 Fairness ==
   /\ WF_vars(ParentNext)
@@ -195,7 +235,9 @@ Good(s) == SelectSeq(s, LAMBDA t : t # "bad")      \* the well-formed requests o
 Pending == IF pc = "step" \/ (pc \in {"reply", "kill"} /\ inhand = "term") THEN <<inhand>> ELSE <<>>
 
 TypeOK ==
-  /\ pc \in {"accept", "read", "step", "reply", "kill"}
+  /\ pc \in {"accept", "read", "step", "reply", "kill", "stopped"}
+  /\ \A c \in Children : idle[c] \in 0..MaxPause
+  /\ faults \in 0..MaxFaults
   /\ serving \in Children \cup {0} /\ inhand \in Requests \cup {""}
   /\ \A i \in 1..Len(reqlog) : reqlog[i][2] \in Requests        \* a malformed frame is never taken for a request
   /\ \A c \in Children : st[c] \in {"init", "conn", "wait", "gone", "eof"}
@@ -207,11 +249,14 @@ StepOncePerRequestInOrder ==
   /\ calls \o Pending = StepsOf(reqlog)
   /\ \A c \in Children : IsPrefix(Proj(reqlog, c), Good(sent[c]))
 
-\* the i-th reply a child gets is the reply to its i-th well-formed request (malformed frames get none)
+\* the i-th reply a child gets is the reply to its i-th well-formed request (malformed frames get none);
+\* a child that keeps its connection loses it - and with it the acknowledgement of what it sends next - only
+\* because the old process exited, however long it was silent in between
 AckMatches ==
   \A c \in Children :
      /\ Len(got[c]) + Len(p2c[c]) <= Len(Good(sent[c]))
      /\ \A i \in 1..Len(got[c]) : got[c][i] = Reply(Good(sent[c])[i])
+     /\ (st[c] = "eof" => exited)
 
 UnknownGetsUnknown ==
   \A c \in Children : \A i \in 1..Len(got[c]) :
